@@ -394,6 +394,18 @@ def analyze(ctx, want):
     ctx.analysed_fn(tp)
     ex, paths = run_fn(tp, F, LogModel(), max_paths=20000)
     okp = 0
+    ns_name = "next_state"
+    for bb_, t_ in tp.calls(r"Nfa::shift_ids$"):
+        # the counter is the variable handed to shift_ids as the offset — whatever it is called
+        if len(t_["args"]) > 1 and t_["args"][1].get("k") in ("copy", "move") and not t_["args"][1]["p"]["pj"]:
+            l_ = t_["args"][1]["p"]["l"]
+            n_ = tp.names().get(l_)
+            if n_ is None:
+                d_ = tp.single_def(l_)
+                if d_ and d_["kind"] == "assign" and d_["stmt"]["rv"]["k"] == "use" and d_["stmt"]["rv"]["op"].get("k") in ("copy", "move") and not d_["stmt"]["rv"]["op"]["p"]["pj"]:
+                    n_ = tp.names().get(d_["stmt"]["rv"]["op"]["p"]["l"])
+            if n_:
+                ns_name = n_
     for p in paths:
         sh = p.calls(r"Nfa::shift_ids$")
         if not sh:
@@ -403,13 +415,16 @@ def analyze(ctx, want):
         hs = p.calls(r"Nfa::highest_state_number$")
         # next_state after the pattern = highest state number of the SHIFTED nfa + 1
         ns = None
-        l_ns = [l for l, n in tp.names().items() if n == "next_state"]
+        # (the counter is the variable handed to shift_ids as the offset — whatever it is called)
+        if off[0] == "sym" and str(off[1]) in tp.names().values():
+            ns_name = str(off[1])
+        l_ns = [l for l, n in tp.names().items() if n == ns_name]
         if l_ns:
             ns = p.locals.get((ex.fid, l_ns[0]))
         lin, c = S.linear(ns) if ns is not None else ({}, None)
         ok_ns = c == 1 and len(lin) == 1 and bool(hs) and S.mentions(ns, lambda x: x == hs[0][4]) and p.events.index(hs[0]) > p.events.index(sh[0])
         ob("C02.e", "next-pattern-starts-above-the-highest-state", ok_ns, "next_state := %s (after shift_ids)" % (S.fstr(ns)[:80] if ns else None), tp.loc())
-        ok_off = S.fstr(off) in ("next_state", "1") or off == ("int", 1)
+        ok_off = S.fstr(off) in (ns_name, "1") or off == ("int", 1)
         ob("C02.e", "nfa-shifted-by-next_state", ok_off, "shift_ids(%s)" % S.fstr(off), tp.loc(sh[0][1]))
         stp = [e for e in p.events if e[0] == "call" and re.search(r"Vec::<.*EpsilonTransition>::push$", e[2])]
         ok_st = len(stp) == 1 and S.mentions(argval(stp[0], 1), lambda x: x == ("field", sh[0][4], "0"))
@@ -423,7 +438,7 @@ def analyze(ctx, want):
     # initial next_state = 1 (state 0 is the common start)
     init = None
     for bb, i, s in tp.assigns():
-        if tp.names().get(s["p"]["l"]) == "next_state" and not s["p"]["pj"] and s["rv"]["k"] == "use" and s["rv"]["op"]["k"] == "const":
+        if tp.names().get(s["p"]["l"]) == ns_name and not s["p"]["pj"] and s["rv"]["k"] == "use" and s["rv"]["op"]["k"] == "const":
             init = s["rv"]["op"].get("val")
     ob("C02.e", "state-0-reserved-for-the-common-start", init == 1, "initial next_state = %s" % init, tp.loc())
     hn = F.fn(r"internal::nfa::Nfa::highest_state_number$")
